@@ -234,6 +234,21 @@ def _same_but_queue(a, b):
     return True
 
 
+def mach_view(sim, cfg):
+    K = cfg.get("K", 1)
+    out = []
+    for m in sim.cluster.machines:
+        def whole(v):
+            # speeds are logged in work units per tick x K (exact), -1 if not representable
+            try:
+                f = float(v)
+            except (TypeError, ValueError):
+                return -1
+            return int(f) if f == int(f) else -1
+        out.append({"id": str(m.id), "cpu": whole(m.cpu), "bw": whole(m.bandwidth)})
+    return out
+
+
 def exc_view(e):
     tb = traceback.extract_tb(e.__traceback__)
     site = ""
@@ -302,6 +317,14 @@ def run(cfg, segs=None, perm_seed=None, perm_kinds=None, budget=None, full=True,
                 rec["exc"] = exc_view(exc) if exc is not None else {"type": "", "msg": "", "site": ""}
                 rec["raised"] = env.last_raised
                 rec["callexc"] = ""
+                # the machines' speeds as they are now (logged when they change: a
+                # machine keeps the speed the configuration gave it)
+                mv = mach_view(sim, cfg)
+                if mv != state.get("mach") and not (lab is not None and lab.get("kind") == "INIT"):
+                    rec["mach"] = mv
+                    state["mach"] = mv
+                else:
+                    rec["mach"] = []
                 steps.append(rec)
                 if exc is None and env.now * K > lim:
                     raise Budget()
